@@ -186,6 +186,9 @@ func (root *Root) resolve(
 			var err error
 			if result, err = co.CoerceOut(obj); err != nil {
 				ea = append(ea, resWarn(field.line, field.col, "%s", err))
+				// Some coercers hand the unconverted value back along
+				// with the error. It must not end up in the response.
+				result = nil
 			}
 		}
 	}
